@@ -818,7 +818,7 @@ pub fn run_state_case(spec: &Spec, out: &mut dyn Write) -> GeomOut {
     for m in cart.iter() {
         writeln!(out, "c {}", hex9(m)).unwrap();
     }
-    let k: i64 = spec.u_or("k", 1) as i64;
+    let k: i64 = spec.i_or("k", 1);
     let zero = spec.u_or("zero", 0) == 1;
     let idx = (spec.u_or("idx", 0) as usize).min(n.saturating_sub(1));
     let imgs = st.images(idx, k, zero);
@@ -887,7 +887,8 @@ pub fn run_state_case(spec: &Spec, out: &mut dyn Write) -> GeomOut {
             add(&mut f, "C14", format!("cell centre {:?}, expected {:?}", center, (ex, ey)));
         }
         // images of placement idx
-        let want_n = ((2 * k + 1) * (2 * k + 1)) as usize - if zero { 0 } else { 1 };
+        // (a negative shell count is an empty range: no images at all)
+        let want_n = if k < 0 { 0 } else { ((2 * k + 1) * (2 * k + 1)) as usize - if zero { 0 } else { 1 } };
         if imgs.len() != want_n {
             add(&mut f, "C14", format!("{} periodic images within {} shells (zero={}), expected {}", imgs.len(), k, zero, want_n));
         } else if idx < cart.len() {
@@ -1574,6 +1575,39 @@ pub fn run_order_case(spec: &Spec, out: &mut dyn Write) -> GeomOut {
         St::Mol(s) => order_case(s, spec, out),
         St::Lj(s) => order_case(s, spec, out),
     };
+    // states of the SAME shape in DIFFERENT groups (other copy counts, other cells): ranked by their scores too
+    if let Some(g2) = spec.kv.get("group2") {
+        let mut s2 = spec.clone();
+        s2.kv.insert("group".into(), g2.clone());
+        if let Some(l2) = spec.kv.get("len2") {
+            s2.kv.insert("len".into(), l2.clone());
+        }
+        s2.kv.insert("angle".into(), fmt_f(PI / 2.));
+        if let Ok(st2) = catch_unwind(AssertUnwindSafe(|| build(&s2))) {
+            let code = |o: Option<std::cmp::Ordering>| match o {
+                Some(std::cmp::Ordering::Less) => 'L',
+                Some(std::cmp::Ordering::Equal) => 'E',
+                Some(std::cmp::Ordering::Greater) => 'G',
+                None => 'N',
+            };
+            let (c12, c21) = match (&st, &st2) {
+                (St::Poly(a), St::Poly(b)) => (code(a.partial_cmp(b)), code(b.partial_cmp(a))),
+                (St::Mol(a), St::Mol(b)) => (code(a.partial_cmp(b)), code(b.partial_cmp(a))),
+                (St::Lj(a), St::Lj(b)) => (code(a.partial_cmp(b)), code(b.partial_cmp(a))),
+                _ => ('?', '?'),
+            };
+            let (sa, sb) = (st.score(), st2.score());
+            let want = |x: Option<f64>, y: Option<f64>| match (x, y) {
+                (Some(a), Some(b)) => code(a.partial_cmp(&b)),
+                _ => 'N',
+            };
+            if c12 != '?' && (c12 != want(sa, sb) || c21 != want(sb, sa)) {
+                o.findings.push(Finding { property: "C02,C09,C10", what: format!(
+                    "a {} state scoring {:?} and a {} state of the same shape scoring {:?} compare as {} / {}, their scores as {} / {}",
+                    spec.get("group"), sa, g2, sb, c12, c21, want(sa, sb), want(sb, sa)) });
+            }
+        }
+    }
     if let Some((a, b)) = hist {
         let same = match (a, b) {
             (Some(x), Some(y)) => x.to_bits() == y.to_bits() || (x.is_nan() && y.is_nan()),
@@ -1626,6 +1660,29 @@ pub fn run_ljm_case(spec: &Spec, out: &mut dyn Write) -> GeomOut {
     for (name, got, (want, mag)) in [("energy(a,b)", eab, pair(&a, &b)), ("energy(b,a)", eba, pair(&b, &a))].iter() {
         if got.is_finite() && want.is_finite() && (got - want).abs() > 1e-9 * (1. + mag) {
             add(&mut f, "C13,C03", format!("{} of two molecules is {:?}, the sum over their particle pairs is {:?}", name, got, want));
+        }
+    }
+    // a common rigid motion / reflection of the two PLACED molecules: every particle goes where the motion takes it,
+    // and the energy does not change
+    if let Some(c) = spec.kv.get("common") {
+        let gm = parse_t(c);
+        let (a2, b2) = (a.transform(&tf_of(&gm)), b.transform(&tf_of(&gm)));
+        for (name, before, after) in [("a", &a, &a2), ("b", &b, &b2)].iter() {
+            for (p, q) in before.items.iter().zip(after.items.iter()) {
+                let want = apply(&gm, (p.position.x, p.position.y));
+                let scale = 1. + want.0.abs().max(want.1.abs());
+                if !((q.position.x - want.0).abs() <= 1e-12 * scale && (q.position.y - want.1).abs() <= 1e-12 * scale) {
+                    add(&mut f, "C13,C03", format!(
+                        "a particle of placed molecule {} at ({:?}, {:?}) is moved to ({:?}, {:?}) by a rigid motion that takes that point to ({:?}, {:?})",
+                        name, p.position.x, p.position.y, q.position.x, q.position.y, want.0, want.1));
+                    break;
+                }
+            }
+        }
+        let e2 = a2.energy(&b2);
+        let (_, mag) = pair(&a, &b);
+        if eab.is_finite() && e2.is_finite() && (eab - e2).abs() > 1e-7 * (1. + mag) {
+            add(&mut f, "C13", format!("the energy of two placed molecules changes from {:?} to {:?} under a common rigid motion", eab, e2));
         }
     }
     writeln!(out, "K {}", spec.text).unwrap();
